@@ -93,6 +93,10 @@ def main(argv=None):
         return do_replay(args.replay)
 
     t0 = time.time()
+    import glob
+
+    for f in glob.glob(os.path.join(ROOT, "replays", f"{prop}-*.json")):
+        os.remove(f)
     known = load_known(prop)
     active = []
     known_lines = []
@@ -237,7 +241,8 @@ def finish(prop, tier, seed, mod, results, extra_results, known_lines, t0, args)
                 "inconclusive": inconclusive[:40],
                 "engine_errors": engine[:10],
                 "known_findings_hit": known_lines,
-                "per_obligation": per_ob,
+                "per_obligation_family": _families(per_ob),
+                "per_obligation_slowest": sorted(per_ob, key=lambda o: -(o.get("wall_s") or 0))[:40],
                 "exhaustive": False,
                 "rule": "states = explored symbolic paths (each ends in a solver query path∧¬property); transitions = solver-decided branch decisions; validated = paths whose model was replayed natively with identical observation",
             },
@@ -255,6 +260,20 @@ def finish(prop, tier, seed, mod, results, extra_results, known_lines, t0, args)
     for l in vlines:
         print(l)
     return status
+
+
+def _families(per_ob):
+    fam = {}
+    for o in per_ob:
+        k = o.get("name", "?").split("[")[0]
+        f = fam.setdefault(k, {"obligations": 0, "paths": 0, "verified": 0, "validated": 0, "queries": 0, "solver_s": 0.0, "incomplete": 0})
+        f["obligations"] += 1
+        for kk in ("paths", "verified", "validated", "queries"):
+            f[kk] += o.get(kk, 0) or 0
+        f["solver_s"] = round(f["solver_s"] + (o.get("solver_s", 0) or 0), 2)
+        if o.get("complete") is False:
+            f["incomplete"] += 1
+    return fam
 
 
 def do_replay(path):
